@@ -257,6 +257,9 @@ def tags2preene_cases(ck, rng, V, label, d, base, ncases):
         except Exception as e:
             V("tags2preene on a fresh copy raises %r" % (e,), rep_h, key="c15-tags2preene-exception")
         # non-verbose output must be the same dictionary
+        expected_keys = {"preV", "eneV", "preS", "eneS", "preSV", "eneSV", "preT0", "eneT0", "preT1", "eneT1", "preT2", "eneT2"}
+        if set(thermo) != expected_keys:
+            V("tags2preene returns the keys %s instead of the twelve parameter arrays" % sorted(thermo), {**base, "usertags": ud}, key="c15-array-shape")
         if set(plain) != set(thermo) or any(not np.array_equal(plain[x], thermo[x]) for x in plain):
             V("tags2preene with and without VERBOSE differ", {**base, "usertags": ud}, key="c15-verbose-differs")
         # data ids: user entry k -> k+1 ; (1, 0) -> 0 ; LIMB value of omega1/2 class i -> 1000+i / 2000+i
@@ -272,7 +275,15 @@ def tags2preene_cases(ck, rng, V, label, d, base, ncases):
         for ty in TYPES:
             pn, en = names[ty]
             row = []
-            for i in range(len(d.tags[ty])):
+            # the WHOLE arrays: one entry per symmetry class, no more, no less
+            if np.shape(thermo[pn]) != (len(d.tags[ty]),) or np.shape(thermo[en]) != (len(d.tags[ty]),):
+                V("tags2preene array %s/%s has shape %s/%s but there are %d symmetry classes of type %s (entries belonging to no class, or classes "
+                  "without an entry)" % (pn, en, np.shape(thermo[pn]), np.shape(thermo[en]), len(d.tags[ty]), ty),
+                  {**rep_h, "type": ty, "classes": len(d.tags[ty]), pn: np.asarray(thermo[pn]).tolist(), en: np.asarray(thermo[en]).tolist(),
+                   "class_sizes": [len(c) for c in d.tags[ty]]}, key="c15-array-shape")
+            for i in range(max(len(thermo[pn]), len(thermo[en])) if np.ndim(thermo[pn]) == 1 and np.ndim(thermo[en]) == 1 else 0):
+                if i >= min(len(thermo[pn]), len(thermo[en])) or i >= len(d.tags[ty]):
+                    row.append(UNEXPLAINED); continue      # an entry that belongs to no class: the model has no such entry
                 pair = (float(thermo[pn][i]), float(thermo[en][i]))
                 cand = sorted(set(uid[t] for t, v in ud.items() if v == pair))
                 # (the LIMB value of an omega2 class can coincide with a supplied omega0 pair: test LIMB first)
